@@ -596,7 +596,18 @@ func getStringer(x any) (meth func() string) {
 	if v := valOf(x); !v.IsZero() {
 		if method := v.MethodByName(`String`); method.Kind() != reflect.Invalid {
 			if _meth, ok := method.Interface().(func() string); ok {
-				meth = _meth
+				// A String method promoted from a nil
+				// embedded pointer panics when called.
+				// As is the case with package fmt, do
+				// not let it take the caller down.
+				meth = func() (s string) {
+					defer func() {
+						if recover() != nil {
+							s = ``
+						}
+					}()
+					return _meth()
+				}
 			}
 		}
 	}
